@@ -358,6 +358,7 @@ m1c! {
     c12_m1c_short_nonblank_line => (24; "\'\'\'\nx\n    \'\'\'", false, 2, 2, false),
     c12_m1c_short_blank_line => (24; "\'\'\'\n \n  a\n  \'\'\'", false, 2, 2, false),
     c12_m1c_overindented_and_trailing_blanks => (30; "\'\'\'\n    a  \n  \'\'\'", false, 2, 2, false),
+    c12_m1c_blank_line_longer_than_base => (24; "\'\'\'\n    \n  a\n  \'\'\'", false, 2, 2, false),
     c12_m1c_nonconforming => (24; "\'\'\'\n a\nb\n \'\'\'", false, 2, 2, false),
     c12_m1c_text_before_closing_quotes => (24; "\'\'\'\n a\n b\'\'\'", false, 2, 2, false),
     c12_m1c_ignored_untouched => (24; "\'\'\'\n  ab\n  \'\'\'", false, 2, 4, false),
